@@ -206,7 +206,7 @@ def run(rep, ctx):
     ca = one(VS + "::operator=")
     asg = [n for n in ca.walk() if n["k"] == "CXXOperatorCallExpr" and n.get("op") == "=" and render(call_args(n)[0]) == "s_"]
     w1.check(len(asg) == 1 and any(c.get("callee") == VS + "::MakeCountedName" for c in walk(asg[0])) and
-             any(render(ca.nodes[cid]) == "empty()" and pol is True for cid, pol in ca.cfg.facts_at(asg[0])), "copy-assign", short_loc(ca.loc),
+             any(t_.replace("this->", "") == "empty()" and pol is True for t_, pol in norm_facts(ca, asg[0])), "copy-assign", short_loc(ca.loc),
              "copy assignment takes a counted name and only fills an empty slot (first writer wins)")
     cs = one(VS + "::operator basic_string")
     w1.check(len(calls(cs, qn=VS + "::MakeCountedName")) == 1, "to-string", short_loc(cs.loc), "conversion to std::string is a counted copy")
@@ -497,6 +497,6 @@ def run(rep, ctx):
     s1.check(ok, "name-length", short_loc(sc.loc), "a name is [start, ptr) minus a trailing carriage return")
     rd = one("mp::NameProvider::ReadNames")
     pb = calls(rd, name="push_back")
-    s1.check(len(pb) == 1 and "last_name.data() + last_name.size() + 1" in render(pb[0]), "sentinel", short_loc(rd.loc),
+    s1.check(len(pb) == 1 and "last_name.data()+last_name.size()+1" in xrender(rd, call_args(pb[0])[0], True).replace(" ", "").replace("handler.name()", "last_name"), "sentinel", short_loc(rd.loc),
              "a sentinel pointer after the last name lets name(i) compute every length from the next start")
     return rep
